@@ -28,7 +28,8 @@ def sim_cases():
     ops = g.worker_ops + [
         g.op_apply(), g.op_apply(), g.op_map(), g.op_imap(), g.work, g.work,
         g.work, g.feed, g.tick, g.tick, g.tick, g.adv, g.die_any, g.die_any,
-        g.dier, g.wexit, g.wexit, g.grow, g.shrink, g.shrink,
+        g.dier, g.wexit, g.wexit, g.grow, g.shrink, g.shrink, g.slow, g.run,
+        g.straggle.map(lambda o: o[:3] + [False]),
     ]
     return g.history(cfg, ops, max_ops=70, min_ops=15)
 
